@@ -256,6 +256,12 @@ pub async fn log_commits(account: &LocalAccount, fid: &VaultId) -> Result<Vec<Co
 /// directly (file system) or the folder + secret rows (database, through
 /// `Folder::new`, the code path every open uses).
 pub async fn mirror_folder(target: &BackendTarget, account_id: &AccountId, fid: &VaultId, key: &AccessKey) -> Result<FolderView, SnapError> {
+    let vault = mirror_vault(target, account_id, fid).await?;
+    view_of_vault(vault, key).await
+}
+
+/// The persisted vault of a folder, still encrypted.
+pub async fn mirror_vault(target: &BackendTarget, account_id: &AccountId, fid: &VaultId) -> Result<Vault, SnapError> {
     let vault: Vault = match target {
         BackendTarget::FileSystem(paths) => {
             let p = paths.with_account_id(account_id).vault_path(fid);
@@ -269,7 +275,53 @@ pub async fn mirror_folder(target: &BackendTarget, account_id: &AccountId, fid: 
             ap.vault().clone()
         }
     };
-    view_of_vault(vault, key).await
+    Ok(vault)
+}
+
+/// Every AEAD pack held by a vault: header meta + meta/secret of each row.
+pub fn packs_of_vault(vault: &Vault, origin: &str, out: &mut Vec<(String, sos_core::crypto::AeadPack)>) {
+    if let Some(m) = vault.header().meta() {
+        out.push((format!("{origin}:header_meta"), m.clone()));
+    }
+    for (id, VaultCommit(_, VaultEntry(m, sv))) in vault.iter() {
+        out.push((format!("{origin}:row:{id}:meta"), m.clone()));
+        out.push((format!("{origin}:row:{id}:secret"), sv.clone()));
+    }
+}
+
+/// Every AEAD pack in a folder's storage: all events of its log and its
+/// persisted vault.
+pub async fn packs_of_folder(account: &LocalAccount, target: &BackendTarget, account_id: &AccountId, fid: &VaultId) -> Result<Vec<(String, sos_core::crypto::AeadPack)>, SnapError> {
+    use futures::StreamExt;
+    use sos_core::events::WriteEvent;
+    let mut out = vec![];
+    let folder = account.folder(fid).await.map_err(|e| SnapError { class: "folder_lookup_failed", detail: format!("{fid}: {e}") })?;
+    {
+        let log = folder.event_log();
+        let log = log.read().await;
+        let stream = log.event_stream(false).await;
+        futures::pin_mut!(stream);
+        let mut i = 0usize;
+        while let Some(r) = stream.next().await {
+            let (_, ev) = r.map_err(|e| SnapError { class: "log_stream_failed", detail: format!("{fid}: {e}") })?;
+            match ev {
+                WriteEvent::CreateVault(buf) => {
+                    let v: Vault = decode(&buf).await.map_err(|e| SnapError { class: "create_vault_decode_failed", detail: format!("{e}") })?;
+                    packs_of_vault(&v, &format!("log[{i}]:create_vault"), &mut out);
+                }
+                WriteEvent::SetVaultMeta(p) => out.push((format!("log[{i}]:set_vault_meta"), p)),
+                WriteEvent::CreateSecret(id, VaultCommit(_, VaultEntry(m, sv))) | WriteEvent::UpdateSecret(id, VaultCommit(_, VaultEntry(m, sv))) => {
+                    out.push((format!("log[{i}]:{id}:meta"), m));
+                    out.push((format!("log[{i}]:{id}:secret"), sv));
+                }
+                _ => {}
+            }
+            i += 1;
+        }
+    }
+    let mirror = mirror_vault(target, account_id, fid).await?;
+    packs_of_vault(&mirror, "vault", &mut out);
+    Ok(out)
 }
 
 pub async fn mirror(target: &BackendTarget, account_id: &AccountId, keys: &BTreeMap<VaultId, AccessKey>) -> Result<AccountView, SnapError> {
